@@ -8,7 +8,7 @@ use rayon::prelude::*;
 use serde_json::{json, Value};
 
 pub fn movie_json(m: &LMovie) -> Value {
-    json!({"timescale": m.timescale, "mdat_first": m.mdat_first, "placement": m.placement,
+    json!({"timescale": m.timescale, "mdat_first": m.mdat_first, "large_mdat": m.large_mdat, "mdat_open_ended": m.mdat_open_ended, "placement": m.placement,
         "tracks": m.tracks.iter().map(|t| json!({"id": t.id, "codec": format!("{:?}", t.codec), "timescale": t.timescale, "chunks": t.chunks,
             "samples": t.samples.iter().map(|s| json!([s.size, s.delta, s.cts, s.sync])).collect::<Vec<_>>(),
             "stsc_split": t.stsc_split, "stts_split": t.stts_split, "ctts_split": t.ctts_split, "co64": t.co64, "const_size": t.const_size, "ctts": t.ctts, "stss": t.stss, "stbl_order": t.stbl_order})).collect::<Vec<_>>()})
@@ -106,6 +106,37 @@ pub fn judge_file(prop: &str, family: &str, m: &LMovie, bytes: &[u8], mdat_paylo
                 if let Err(p) = off {
                     ok = false;
                     l.violations.push(Violation::new(prop, "id_outside_range_panics", case()).obs(json!({"track": t.id, "sample": k, "panic": short_loc(&p)})));
+                }
+            }
+        }
+    }
+    // the same reader asked again in other orders (backwards, zig-zag): a lookup must not depend on earlier lookups
+    if ok {
+        for (t, e) in m.tracks.iter().zip(exp.iter()) {
+            let n = e.len() as u32;
+            if n < 2 {
+                continue;
+            }
+            let mut order: Vec<u32> = (1..=n).rev().collect();
+            let (mut lo, mut hi) = (1u32, n);
+            while lo <= hi {
+                order.push(lo);
+                if hi != lo {
+                    order.push(hi);
+                }
+                lo += 1;
+                hi -= 1;
+            }
+            for k in order {
+                l.transitions += 2;
+                let x = &e[k as usize - 1];
+                let off = guard(|| r.sample_offset(t.id, k));
+                let got = read_one(&mut r, t.id, k);
+                let same = matches!(&off, Ok(Ok(o)) if *o == mdat_payload_pos + x.rel_offset) && matches!(&got, Got::Some(g) if g.bytes == x.bytes && g.start == x.start && g.dur == x.duration && g.off == x.cts && g.sync == x.sync);
+                if !same {
+                    ok = false;
+                    l.violations.push(Violation::new(prop, "lookup_depends_on_earlier_lookups", case()).obs(json!({"track": t.id, "sample": k, "offset": format!("{:?}", off.map(|r| r.map_err(|e| e.to_string()))), "got": got.to_json()})).exp(json!({"start": x.start, "dur": x.duration, "off": x.cts, "sync": x.sync})));
+                    break;
                 }
             }
         }
@@ -521,6 +552,42 @@ pub fn run(tier: Tier, seed: u64) -> i32 {
         });
     }
     fams.push(json!({"family": "J:sample sizes in {0x90000000, 1, 0xffffffff}^N, every chunking: sample_count and sample_offset only (payload not materialised)", "n_max": nj, "files": cj}));
+
+    // (K) forms of the media data box: after moov with a compact / 64-bit / open-ended (size 0) header, before moov
+    let nk = if th { 5 } else { 4 };
+    let mut ck = 0u64;
+    for n in 1..=nk {
+        let mut items = vec![];
+        for comp in compositions(n) {
+            for form in 0..5u8 {
+                for co64 in [false, true] {
+                    items.push((comp.clone(), form, co64));
+                }
+            }
+        }
+        ck += items.len() as u64;
+        par(items, &mut l, |(comp, form, co64), l| {
+            let samples: Vec<LSample> = (0..n).map(|i| LSample { size: 1 + (i as u32 % 3), delta: 4 + i as u32, cts: 0, sync: i % 2 == 0 }).collect();
+            let mut t = LTrack::simple(1, Codec::Avc, 1000, samples.clone(), comp.clone());
+            t.co64 = *co64;
+            t.stss = true;
+            let mut t2 = LTrack::simple(2, Codec::Aac, 48000, samples, comp.clone());
+            t2.co64 = !*co64;
+            let mut m = LMovie::new(1000, vec![t, t2]);
+            match *form {
+                1 => m.large_mdat = true,
+                2 => m.mdat_open_ended = true,
+                3 => m.mdat_first = true,
+                4 => {
+                    m.mdat_first = true;
+                    m.large_mdat = true;
+                }
+                _ => {}
+            }
+            judge("C03", "K:mdat_forms", &m, l);
+        });
+    }
+    fams.push(json!({"family": "K:media data box after moov (compact, 64-bit, open-ended size-0 header) or before it (compact, 64-bit) x chunking x offset width, two tracks", "n_max": nk, "files": ck}));
 
     // (H) real files: the independent decoder (refmp4::parse) reads the canned files' tables, evaluates the lookup
     // semantics on them, and every sample is compared with what the library returns.  This binds the reference
